@@ -8,6 +8,7 @@ from typing import Any, List
 SELECTORS = [
     ["name", "a"], ["name", "b"], ["index", 0], ["index", 1], ["index", -1],
     ["slice", 1, None, None], ["slice", None, None, -1], ["slice", 0, 2, None], ["slice", None, -1, 2], ["wild"],
+    ["slice", 0, None, -1], ["slice", None, None, 0],
 ]
 
 PAIRS = [
@@ -64,6 +65,17 @@ CORE_SELECTOR_QUERIES = [
     ([["child", [["slice", None, -1, 2], ["index", -1]]]], "arr"),
     ([["desc", [["wild"]]]], "arr"),
     ([["child", [["name", "a"]]], ["child", [["slice", None, None, -1]]]], "nest1"),
+    # duplicates must be kept: overlapping subtrees reached through two descendant segments / a repeated selector
+    ([["desc", [["name", "a"]]], ["desc", [["name", "b"]]]], "deep"),
+    ([["desc", [["name", "a"]]], ["desc", [["name", "a"]]]], "deep"),
+    ([["child", [["wild"], ["name", "a"]]], ["desc", [["name", "b"]]]], "deep"),
+    ([["desc", [["wild"]]], ["desc", [["wild"]]]], "nest3"),
+    # explicit zero bounds are not omitted bounds
+    ([["child", [["slice", 0, None, -1]]]], "arr"),
+    ([["child", [["slice", None, 0, -1]]]], "arr"),
+    ([["child", [["slice", 0, 0, None]]]], "arr"),
+    ([["child", [["slice", 0, None, 0]]]], "arr"),
+    ([["desc", [["slice", 0, None, -1], ["index", 0]]]], "nest3"),
 ]
 
 
@@ -159,4 +171,7 @@ REGEX_EXPRS = [
     ["not", ["fn", "search", [rel("a"), ["lit", "^a"]]]],
     ["fn", "match", [rel("a"), rel("b")]],
     ["and", ["fn", "search", [rel("a"), ["lit", "a|1"]]], A],
+    ["fn", "match", [rel("a"), ["lit", "ab"]]],
+    ["fn", "match", [rel("a"), ["lit", ""]]],
+    ["fn", "search", [rel("a"), ["lit", "b$"]]],
 ]
